@@ -1,6 +1,11 @@
 HOOK_COMMITS = ["df48cf5"]
 NOT_APPLICABLE = {}
 TEXTS = {
+ "C16": {
+  "technique": "property-based concurrency and fault-injection testing (rapid): generated actor scripts with injected faults and a schedule-perturbation tape at the engine's lock-release points; state-based wedge oracle (probe write, closed errors, goroutine count)",
+  "level_text": "Generated multi-actor scripts over begins, commits, aborts, session operations, cancelled contexts, failing stores, panicking callbacks, streams and shutdown, executed on real goroutines with perturbation at the windows where the engine has dropped its lock; the oracle checks the single-writer invariant, the absence of panics and deadlocks, that the writer slot is free afterwards (probe write), and that shutdown completes with closed errors and no leftover goroutines. The thorough tier adds -race. Sampling of interleavings, not enumeration.",
+  "level_note": "Every timeout expiry is reported together with a goroutine dump of lungo frames; bounds are 3-90 s against microsecond latencies.",
+ },
  "C09": {
   "technique": "stateful property-based testing (rapid) with the change log as oracle: generated write / watch / TryNext / close histories, retention-truncation histories, and generated concurrent writer/consumer programs with schedule perturbation and bounded, state-decided liveness",
   "level_text": "Generated histories and concurrent programs judged against the change log the harness records itself: exact, ordered, once-only delivery per scope and start position, invalidation, resume tokens, explicit lost-position errors under retention, and wake-up by commit / Close / cancellation / shutdown within a bound. The thorough tier repeats the concurrent part under the race detector. Sampling, not proof.",
